@@ -116,7 +116,13 @@ func getTrace(t *testing.T, kind string, n, thr int) (*ceremonyTrace, error) {
 	var terr error
 	synctest.Test(t, func(t *testing.T) {
 		start := time.Now()
-		w, err := world.New(world.Config{N: n, Seed: []byte("trace|" + key), Root: filepath.Join(base, "world")})
+		cfg := world.Config{N: n, Seed: []byte("trace|" + key), Root: filepath.Join(base, "world")}
+		if strings.HasSuffix(kind, "-twins") {
+			// the same ceremony with two participants whose names differ only in letter case
+			cfg.Names = world.CaseTwinNames(n)
+			kind = strings.TrimSuffix(kind, "-twins")
+		}
+		w, err := world.New(cfg)
 		if err != nil {
 			terr = err
 			return
